@@ -561,6 +561,8 @@ def gen_peak_jobs(rng, n):
                 jobs.append(gen_job(rng, name, container, enc, ch, caller, scale, "last", "big", "exact32" if enc == "f64" else "any"))
                 k += 1
     jobs += gen_subnormal_jobs(rng, k)
+    from . import c18long          # ONE call longer than the staging buffer, unique maxima behind the first pass (every caller type x 1-6 channels)
+    jobs += c18long.jobs(rng, len(jobs))
     return jobs
 
 
